@@ -1,21 +1,11 @@
-use toolbox_rs::{r_tree::RTree, geometry::FPCoordinate, partition_id::PartitionID};
+use toolbox_rs::{cell::BaseCell, edge::InputEdge};
 fn main() {
-    for n in [0usize,1,29,30,31,899,900,901,1800,1801,26999,27000,27001,27931] {
-        let mut els = Vec::new();
-        let mut x: u64 = 12345 + n as u64;
-        for i in 0..n {
-            x = x.wrapping_mul(6364136223846793005).wrapping_add(1442695040888963407);
-            let lat = ((x >> 33) % 1_000_000) as i32 - 500_000 + 50_000_000;
-            x = x.wrapping_mul(6364136223846793005).wrapping_add(1442695040888963407);
-            let lon = ((x >> 33) % 1_000_000) as i32 - 500_000 + 8_000_000;
-            els.push((FPCoordinate::new(lat, lon), PartitionID::new(i as u32 + 1)));
-        }
-        let tree = RTree::from_elements(els.clone());
-        let q = FPCoordinate::new(50_000_000, 8_000_000);
-        let out: Vec<_> = tree.nearest_iter(&q).collect();
-        let mut ids: Vec<u32> = out.iter().map(|(e, _)| { let p: usize = e.1.into(); p as u32 }).collect();
-        ids.sort(); ids.dedup();
-        let sorted = out.windows(2).all(|w| w[0].1 <= w[1].1);
-        println!("n={n} yielded={} distinct={} sorted={}", out.len(), ids.len(), sorted);
-    }
+    let c = BaseCell { incoming_nodes: vec![1,2], outgoing_nodes: vec![2,3], edges: vec![InputEdge::new(1,2,4usize), InputEdge::new(2,3,5)] };
+    println!("{:?} expect [4, 9, 0, 5]", c.process().matrix);
+    let c = BaseCell { incoming_nodes: vec![5], outgoing_nodes: vec![5], edges: vec![InputEdge::new(5,6,1usize)] };
+    println!("{:?} expect [0]", c.process().matrix);
+    let c = BaseCell { incoming_nodes: vec![1,2], outgoing_nodes: vec![3], edges: vec![InputEdge::new(1,1,5usize)] };
+    println!("{:?} expect [MAX, MAX]", c.process().matrix);
+    let c = BaseCell { incoming_nodes: vec![1,2], outgoing_nodes: vec![2], edges: vec![] };
+    println!("{:?} expect [MAX, 0]", c.process().matrix);
 }
